@@ -6,14 +6,14 @@ import F1Verif.Generated.Facts
 import F1Verif.Expected
 namespace F1.Props.FactsC08
 
-theorem fact_result_Failed : F1.Generated.skel_result_Failed = F1.Expected.skel_result_Failed := by rfl
+-- (result_Failed, snapshot_Iterations: re-proved semantically on the regenerated MiniGo programs, see Props/Refine*.lean)
+
 theorem fact_result_Error : F1.Generated.skel_result_Error = F1.Expected.skel_result_Error := by rfl
 theorem fact_result_AddError : F1.Generated.skel_result_AddError = F1.Expected.skel_result_AddError := by rfl
 theorem fact_runcmd_Execute : F1.Generated.skel_runcmd_Execute = F1.Expected.skel_runcmd_Execute := by rfl
 theorem fact_run_teardown : F1.Generated.skel_run_teardown = F1.Expected.skel_run_teardown := by rfl
 theorem fact_run_reportSetupFailure : F1.Generated.skel_run_reportSetupFailure = F1.Expected.skel_run_reportSetupFailure := by rfl
 theorem fact_run_fail : F1.Generated.skel_run_fail = F1.Expected.skel_run_fail := by rfl
-theorem fact_snapshot_Iterations : F1.Generated.skel_snapshot_Iterations = F1.Expected.skel_snapshot_Iterations := by rfl
 theorem fact_file_Builder : F1.Generated.skel_file_Builder = F1.Expected.skel_file_Builder := by rfl
 theorem fact_file_validateCommonFields : F1.Generated.skel_file_validateCommonFields = F1.Expected.skel_file_validateCommonFields := by rfl
 
